@@ -60,6 +60,14 @@ Lemma geval_gen_S n e f st :
       | (Fatal x, st1) => (Fatal x, st1)
       end
     | SkipTo e1 => skipto_go text re_at ic n (gen n) e1 f st
+    | Assoc lft e1 =>
+      match gen n e1 (push f) st with      (* a state scope of its own: the tree replaces the flat list there, then merges *)
+      | (Ok r f1, st1) =>
+        let v := (if lft then left_assoc else right_assoc) (list_items r) in
+        (Ok v (merge f (set_cst f1 v)), st1)
+      | (Fail _, st1) => (Fail (cutseen f), st1)
+      | (Fatal x, st1) => (Fatal x, st1)
+      end
     | Call r => on_call n (gen n) r f st
     | Named false nm e1 =>
       match gen n e1 f st with
@@ -128,7 +136,7 @@ Theorem single_append_last : forall n, SA (gen n).
 Proof.
   induction n as [|n IH]; intros e f st r f1 st1 Hs E; [cbn in E; discriminate|].
   rewrite geval_gen_S in E.
-  destruct e as [l|es|es|e1|e1|e1|plus sep omitsep e1|neg e1|e1|rr|il nm e1|il e1]; try discriminate.
+  destruct e as [l|es|es|e1|e1|e1|plus sep omitsep e1|neg e1|e1|lft e1|rr|il nm e1|il e1]; try discriminate.
   - eapply leaf_sa; eassumption.
   - eapply choice_go_gen_sa; eassumption.
   - cbn [single_append] in Hs. eapply IH; eassumption.
